@@ -194,6 +194,82 @@ func (c *Ctx) ConcurrentReplay() {
 	c.Hist([]Event{e})
 }
 
+// Returned byte slices are the caller's: no later call may change them (a result that is a view of a pooled or shared
+// buffer is overwritten by the next call).  Ops hand the raw slices they got from the library to retain(); at the end
+// of the run every one of them is compared with the copy taken at the time.
+type retainedSlice struct {
+	op, field string
+	live, was []byte
+}
+
+var (
+	retMu   sync.Mutex
+	retList []retainedSlice
+	retSeen int
+)
+
+func retain(op, field string, b []byte) {
+	if len(b) == 0 {
+		return
+	}
+	retMu.Lock()
+	retSeen++
+	if len(retList) < 20000 || retSeen%16 == 0 && len(retList) < 60000 {
+		retList = append(retList, retainedSlice{op, field, b, append([]byte{}, b...)})
+	}
+	retMu.Unlock()
+}
+
+// retainStr: the same for returned strings (a string built as a zero-copy view of a reused buffer changes later).
+func retainStr(op, field, v string) string {
+	if len(v) > 0 {
+		retMu.Lock()
+		retSeen++
+		if len(retStrs) < 20000 || retSeen%16 == 0 && len(retStrs) < 60000 {
+			retStrs = append(retStrs, retainedStr{op, field, v, []byte(v)})
+		}
+		retMu.Unlock()
+	}
+	return v
+}
+
+type retainedStr struct {
+	op, field string
+	live      string
+	was       []byte
+}
+
+var retStrs []retainedStr
+
+func (c *Ctx) RetainCheck() {
+	retMu.Lock()
+	defer retMu.Unlock()
+	if len(retList) == 0 && len(retStrs) == 0 {
+		return
+	}
+	mism := 0
+	first := map[string]interface{}{"sequential": "", "concurrent": ""}
+	for _, r := range retStrs {
+		if r.live != string(r.was) {
+			if mism == 0 {
+				first = map[string]interface{}{"sequential": fmt.Sprintf("%s.%s = %q", r.op, r.field, r.was), "concurrent": fmt.Sprintf("%q", r.live)}
+			}
+			mism++
+		}
+	}
+	for _, r := range retList {
+		if string(r.live) != string(r.was) {
+			if mism == 0 {
+				first = map[string]interface{}{"sequential": fmt.Sprintf("%s.%s = %x", r.op, r.field, r.was), "concurrent": fmt.Sprintf("%x", r.live)}
+			}
+			mism++
+		}
+	}
+	c.Flush()
+	c.Hist([]Event{{"op": "ConcurrentReplay", "mode": "returned slices read again at the end of the run", "calls": len(retList) + len(retStrs), "workers": 0,
+		"executions": len(retList) + len(retStrs), "skipped_budget": 0, "mismatches": mism, "first": first}})
+}
+
 func (c *Ctx) Thorough() bool { return c.Tier == "thorough" }
 
 // Pick returns q in the quick tier and t in the thorough tier.
@@ -320,19 +396,21 @@ func str(s string) []int { return ints([]byte(s)) }
 func gBytes(a Event, k string) []byte {
 	switch v := a[k].(type) {
 	case []int:
-		r := make([]byte, len(v))
+		r := argSlice(a, k, len(v))
 		for i, x := range v {
 			r[i] = byte(x)
 		}
 		return r
 	case []interface{}:
-		r := make([]byte, len(v))
+		r := argSlice(a, k, len(v))
 		for i, x := range v {
 			r[i] = byte(int(x.(float64)))
 		}
 		return r
 	case []byte:
-		return append([]byte{}, v...)
+		r := argSlice(a, k, len(v))
+		copy(r, v)
+		return r
 	case string:
 		return []byte(v)
 	case nil:
@@ -341,6 +419,64 @@ func gBytes(a Event, k string) []byte {
 	fatal("argument %q: unexpected type %T", k, a[k])
 	return nil
 }
+
+// Every byte-slice argument handed to the code under test sits in a larger backing array whose spare capacity holds
+// a recognisable non-zero pattern: code that reads behind the slice (through its capacity) computes from the pattern
+// and is judged on the result; code that WRITES behind the slice is caught by Do, which checks the pattern of every
+// argument of the call afterwards ("sparemod").  Registration is per call (keyed by the identity of the call's
+// argument map), so the concurrent replay needs no goroutine-local state.
+const spareCap = 24
+
+var sparePattern = [8]byte{0xA5, 0x5B, 0xFF, 0x81, 0x7E, 0x13, 0xC9, 0x3D}
+
+type argReg struct {
+	key     string
+	n       int
+	backing []byte
+}
+
+var (
+	argMu   sync.Mutex
+	argOpen = map[uintptr][]argReg{}
+)
+
+func argSlice(a Event, k string, n int) []byte {
+	backing := make([]byte, n+spareCap)
+	for i := n; i < len(backing); i++ {
+		backing[i] = sparePattern[(i-n)%8]
+	}
+	id := reflect.ValueOf(a).Pointer()
+	argMu.Lock()
+	if regs, ok := argOpen[id]; ok {
+		argOpen[id] = append(regs, argReg{k, n, backing})
+	}
+	argMu.Unlock()
+	return backing[:n:len(backing)]
+}
+
+func argsOpen(a Event) {
+	argMu.Lock()
+	argOpen[reflect.ValueOf(a).Pointer()] = []argReg{}
+	argMu.Unlock()
+}
+
+// argsClose returns the first argument whose spare capacity no longer holds the pattern.
+func argsClose(a Event) (string, int, bool) {
+	id := reflect.ValueOf(a).Pointer()
+	argMu.Lock()
+	regs := argOpen[id]
+	delete(argOpen, id)
+	argMu.Unlock()
+	for _, r := range regs {
+		for i := r.n; i < len(r.backing); i++ {
+			if r.backing[i] != sparePattern[(i-r.n)%8] {
+				return r.key, i - r.n, true
+			}
+		}
+	}
+	return "", 0, false
+}
+
 func gStr(a Event, k string) string { return string(gBytes(a, k)) }
 func gInt(a Event, k string) int {
 	switch v := a[k].(type) {
@@ -425,7 +561,12 @@ func Do(h *HState, a Event) Event {
 	if !ok {
 		fatal("unknown op %q", op)
 	}
-	return fn(h, a)
+	argsOpen(a)
+	e := fn(h, a)
+	if k, off, bad := argsClose(a); bad {
+		e["sparemod"] = map[string]interface{}{"arg": k, "offset": off}
+	}
+	return e
 }
 
 // Call executes a stateless call and adds its event to the batch.
@@ -563,4 +704,86 @@ func readCases(path string) []map[string]interface{} {
 // wsWraps: a valid text form wrapped in white space (what a "lenient" parser trims): none of these is the string.
 func wsWraps(s string) []string {
 	return []string{" " + s, s + " ", s + "\n", "\t" + s, s + "\r\n", " " + s + " ", "\u00a0" + s, s + "\u2028", s + "\x00", "\x00" + s, s + "\x0b", "\x0c" + s}
+}
+
+// checksumForgeries: variants of full = body ‖ c0 c1 c2 c3 that differ from it ONLY inside the four checksum bytes and
+// keep some algebraic relation between them (what a comparison assembled from shifts, ORs, sums or a partial loop may
+// fail to see): every single bit, every swap and rotation, a byte replaced by the OR / AND / XOR with a neighbour, a
+// bit moved from one byte to another that already has it, sums preserved, all-zero / all-one, each byte +-1.
+func checksumForgeries(full []byte) [][]byte {
+	n := len(full)
+	if n < 4 {
+		return nil
+	}
+	seen := map[string]bool{string(full): true}
+	var out [][]byte
+	emit := func(c [4]byte) {
+		q := append(append([]byte{}, full[:n-4]...), c[:]...)
+		if !seen[string(q)] {
+			seen[string(q)] = true
+			out = append(out, q)
+		}
+	}
+	var c [4]byte
+	copy(c[:], full[n-4:])
+	for bit := 0; bit < 32; bit++ {
+		d := c
+		d[bit/8] ^= 1 << uint(bit%8)
+		emit(d)
+	}
+	for i := 0; i < 4; i++ {
+		for j := 0; j < 4; j++ {
+			if i == j {
+				continue
+			}
+			d := c
+			d[i], d[j] = d[j], d[i]
+			emit(d)
+			d = c
+			d[i] = c[i] | c[j]
+			emit(d)
+			d = c
+			d[i] = c[i] & c[j]
+			emit(d)
+			d = c
+			d[i] = c[i] ^ c[j]
+			emit(d)
+			d = c
+			d[i] = c[j]
+			emit(d)
+			for b := uint(0); b < 8; b++ {
+				if c[i]&(1<<b) != 0 && c[j]&(1<<b) != 0 { // a bit both have: clear it in one (OR unchanged)
+					d = c
+					d[i] &^= 1 << b
+					emit(d)
+				}
+				if c[i]&(1<<b) != 0 && c[j]&(1<<b) == 0 { // move a bit (OR, XOR and the sum are unchanged)
+					d = c
+					d[i] &^= 1 << b
+					d[j] |= 1 << b
+					emit(d)
+				}
+			}
+			d = c // sum preserved
+			d[i]++
+			d[j]--
+			emit(d)
+		}
+		d := c
+		d[i]++
+		emit(d)
+		d[i] -= 2
+		emit(d)
+		d[i] = 0
+		emit(d)
+		d[i] = 0xff
+		emit(d)
+	}
+	emit([4]byte{c[1], c[2], c[3], c[0]})
+	emit([4]byte{c[3], c[0], c[1], c[2]})
+	emit([4]byte{c[3], c[2], c[1], c[0]})
+	emit([4]byte{})
+	emit([4]byte{0xff, 0xff, 0xff, 0xff})
+	emit([4]byte{^c[0], ^c[1], ^c[2], ^c[3]})
+	return out
 }
